@@ -183,6 +183,8 @@ pub struct Ctx {
     pub machinery_errors: Vec<String>,
     /// evidence file stem (defaults to the property id)
     pub evidence_name: String,
+    /// the quick tier of this check uses the thorough tier's bounds (cheap checks)
+    pub promoted: bool,
 }
 
 fn panic_msg(p: Box<dyn std::any::Any + Send>) -> String {
@@ -279,13 +281,19 @@ impl Ctx {
             threads,
             machinery_errors: Vec::new(),
             evidence_name: property.to_string(),
+            promoted: false,
         }
     }
+    /// for checks whose thorough bounds are cheap: explore them in the quick tier too
+    pub fn promote_quick(&mut self) {
+        self.promoted = true;
+        self.bounds.insert("quick_tier_uses_thorough_bounds".to_string(), Value::Bool(true));
+    }
     pub fn quick(&self) -> bool {
-        self.tier == Tier::Quick
+        self.tier == Tier::Quick && !self.promoted
     }
     pub fn thorough(&self) -> bool {
-        self.tier == Tier::Thorough
+        self.tier == Tier::Thorough || self.promoted
     }
     /// pick by tier
     pub fn t<T>(&self, quick: T, thorough: T) -> T {
@@ -523,7 +531,7 @@ impl Ctx {
         let mut missing = Vec::new();
         if self.replay.is_none() && self.only.is_none() {
             for (c, thorough_only) in &self.required {
-                if *thorough_only && self.tier == Tier::Quick {
+                if *thorough_only && self.tier == Tier::Quick && !self.promoted {
                     continue;
                 }
                 if self.classes.get(c).copied().unwrap_or(0) == 0 {
